@@ -295,6 +295,12 @@ func checkReaderExit(c *Ctx, r *Report) {
 			}
 		}
 	})
+	// ... or the poll sits in a small helper of the package called before the dequeue
+	for _, ci := range callInstrs(chRead) {
+		if sc := ci.Common().StaticCallee(); sc != nil && sc.Pkg == chRead.Pkg && dominatesInstr(ci, deqCall) && helperReceivesFrom(sc, errsF) {
+			errsPolled = true
+		}
+	}
 	// the flag-true edge must return a non-nil error
 	r.Check(flagTested && errsPolled, rule, "Channel.Read tests errors and exited flag before dequeuing", c.Pos(deqCall.Pos()),
 		"error channel polled and exited flag tested before Dequeue",
